@@ -536,13 +536,15 @@ func (txn *Txn) commit() {
 
 	// Commit chunk by chunk to reduce lock contentions
 	txn.rangeWrite(func(commitID uint64, chunk commit.Chunk, fill bitmap.Bitmap) {
+		// Attemp to update, if nothing was changed we're done
+		updated := txn.commitUpdates(chunk)
+		verifYield("w.mid", uint32(chunk))
+
+		// Apply the row markers last, so that a row deleted by this transaction
+		// does not keep the values the same transaction wrote to it
 		if changedRows {
 			txn.commitMarkers(chunk, fill, markers)
 		}
-		verifYield("w.mid", uint32(chunk))
-
-		// Attemp to update, if nothing was changed we're done
-		updated := txn.commitUpdates(chunk)
 		if !changedRows && !updated {
 			return
 		}
